@@ -183,6 +183,27 @@ def after_body_access(rq, view, k, pairs, sent, content):
     return None
 
 
+def around_params(rq, early, qpairs, bpairs):
+    """Order of access: Request.params (query and forms combined) is read between two looks at Request.query
+    (early False: only after it).  Request.query must still decode to exactly what the query string carried and
+    Request.forms to what the body carried, whatever keys the two share.  What params itself holds for a shared
+    key is not stated by the property and not looked at.  A pair list None: outside the round-trip claim."""
+    if qpairs is not None and bpairs is not None:
+        for k, _ in qpairs:
+            for k2, _ in bpairs:
+                if k == k2:
+                    cover("shared-key")
+    if early and qpairs is not None:
+        bad = compare(rq.query, qpairs, "Request.query before Request.params")
+        if bad:
+            return bad
+    rq.params
+    bad = None if qpairs is None else compare(rq.query, qpairs, "Request.query after Request.params")
+    if not bad and bpairs is not None:
+        bad = compare(rq.forms, bpairs, "Request.forms after Request.params")
+    return bad
+
+
 def name(view):
     return "Request." + view.split("-")[0]
 
@@ -232,6 +253,23 @@ def make_scan_access(view, hi):
         stubs_c18.use_unquote(dec)
         rq = request_for(SymRequest, view, qs)
         return after_body_access(rq, view, k, ref_decode(qs, dec), qs.encode("latin1"), content=False)
+    return q
+
+
+def make_scan_params(qmax, bmax):
+    """Every query string of 1..qmax characters (any code point) together with every body of 1..bmax bytes over
+    'a', 'b', '=', '&' whose first byte is a letter (a body-borne symbolic key is enumerated value by value by
+    `**self.forms`, so the body alphabet is small; the query string can spell the same keys)."""
+    dec = stubs_c18.mark_unquote
+
+    def q(qs: str, body: str, early: bool):
+        assume(1 <= len(qs) <= qmax and 1 <= len(body) <= bmax)
+        assume(body[0] == "a" or body[0] == "b")
+        for c in body[1:]:
+            assume(c == "a" or c == "b" or c == "=" or c == "&")
+        stubs_c18.use_unquote(dec)
+        rq = request_for(SymRequest, "params-qb", qs, body)
+        return around_params(rq, early, ref_decode(qs, dec), ref_decode(body, dec))
     return q
 
 
@@ -340,6 +378,23 @@ def make_roundtrip_access(view, nkeys, nspecial):
     return q
 
 
+def make_roundtrip_params(nkeys, nspecial):
+    """two encoded pairs in the query string and one in the body, keys and values all from the tables: every
+    pattern of repeated key in the query string and of key shared between query string and body."""
+    keys, specials = KEYS[:nkeys], SPECIAL_VALUES[:nspecial]
+
+    def q(k1: int, k2: int, k3: int, v1: int, v2: int, v3: int, early: bool):
+        pairs = []
+        for ki, vi in zip([k1, k2, k3], [v1, v2, v3]):
+            assume(0 <= ki < len(keys) and 0 <= vi < len(specials))
+            pairs.append((keys[ki], specials[vi]))
+        enc = [quote_plus(k) + "=" + quote_plus(v) for k, v in pairs]
+        stubs_c18.use_unquote(unquote)
+        rq = request_for(Request, "params-qb", "&".join(enc[:2]), enc[2])
+        return around_params(rq, early, pairs[:2], pairs[2:])
+    return q
+
+
 def make_roundtrip3(view, nkeys, nspecial):
     """three pairs, keys and values all from the tables (three symbolic texts at once cost > 1 s per path)"""
     keys, specials = KEYS[:nkeys], SPECIAL_VALUES[:nspecial]
@@ -416,6 +471,20 @@ def queries(tier):
                      "then Request.body read again and compared with what was sent"
                      % (KEYS[:nk], SPECIAL_VALUES[:nv], name(view)), timeout=200 if not T else 900, family="access",
                      expect_cover=["body-partly-consumed", "body-fully-consumed"]))
+    # order of access: Request.params read between / before looks at Request.query and Request.forms
+    qm, bm = (3, 1) if not T else (3, 2)
+    out.append(Q("params-mark/q%d-b%d" % (qm, bm), make_scan_params(qm, bm),
+                 "every query string of 1..%d characters (any code point) with every body of 1..%d bytes over 'a' 'b' '=' "
+                 "'&' starting with a letter: Request.query read before (symbolic bool) and after Request.params, then "
+                 "Request.forms, each compared with what its own part carried; decoder = injective marker" % (qm, bm),
+                 timeout=150 if not T else 600, family="access",
+                 expect_cover=["shared-key", "repeated-key", "several-pairs"]))
+    nk, nv = (2, 3) if not T else (3, 4)
+    out.append(Q("params-roundtrip/k%d-v%d" % (nk, nv), make_roundtrip_params(nk, nv),
+                 "two quote_plus-encoded pairs in the query string and one in the body (keys from %r incl. repeated and "
+                 "shared keys, values from %r): Request.query read before (symbolic bool) and after Request.params, then "
+                 "Request.forms, each compared with what its own part carried" % (KEYS[:nk], SPECIAL_VALUES[:nv]),
+                 timeout=150 if not T else 400, family="access", expect_cover=["shared-key", "repeated-key"]))
     # real decoder, '%'-free
     scan("query", 0, 4 if not T else 5, "real", 150 if not T else 500)
     scan("forms", 0, 3 if not T else 4, "real", 150, cov=("several-pairs",))
